@@ -4,7 +4,7 @@
 From Coq Require Import List ZArith Bool Arith.
 Import ListNotations.
 From RV Require Import Gen.GenTermination Model.Retry Model.Machine Proofs.MachineP.
-From RV Require Import Gen.GenFactsBuild.
+From RV Require Import Gen.GenFactsBuild Model.SetupOnly Proofs.SetupOnlyP.
 
 (** For every session (any picks, any outcomes, any initial progress): a build command is run at
     most once. *)
@@ -57,6 +57,25 @@ Print Assumptions C13_no_builds_with_B.
 Theorem C13_build_locked : build_locked = true.
 Proof. reflexivity. Qed.
 Print Assumptions C13_build_locked.
+
+(** --setup-only (the loop of Configurator.get_runs is read off the source: setup_only_shape): in whatever
+    order the runs are visited, for every build command that some run of the session needs at least one
+    run needing it is kept (and then executed once: invocations = iterations = 1); only runs of the
+    session are kept, never one without build commands, and each kept run brings a command no earlier
+    kept run had. *)
+Theorem C13_setup_only_covers :
+  setup_only_shape = true /\ build_commands_are_executor_and_suite = true
+  /\ (forall runs r bs b, In (r, bs) runs -> In b bs ->
+        exists r' bs', In (r', bs') runs /\ In r' (select_setup [] runs) /\ In b bs')
+  /\ (forall runs r, In r (select_setup [] runs) -> exists bs, In (r, bs) runs /\ bs <> []).
+Proof.
+  split; [reflexivity|]. split; [reflexivity|]. split; [exact setup_only_covers | exact no_builds_not_kept].
+Qed.
+Print Assumptions C13_setup_only_covers.
+
+Example C13_setup_only_example :
+  select_setup [] [(0, [1; 2]); (1, [2]); (2, []); (3, [2; 3]); (4, [1; 3])]%nat = [0; 3]%nat.
+Proof. reflexivity. Qed.
 
 (** Non-vacuity: three runs, builds 1 (ok, shared by runs 0 and 1) and 2 (fails, needed by run 2 and run 1). *)
 Definition w13 : world :=
